@@ -48,9 +48,8 @@ def _scope_nodes(ctx: Ctx, fn: FuncInfo) -> list[ast.AST]:
     sc = Scope(ctx, fn)
     nodes: list[ast.AST] = [f.node for f in sc.funcs]
     mod = ctx.prog.module(MOD)
-    for _f, n in sc.walk():
-        if isinstance(n, ast.Name) and n.id in mod.assigns:
-            nodes.append(mod.assigns[n.id])
+    _ = mod
+    nodes += sc.const_nodes()  # module-level tables the scope names, and the tables those are computed from
     # public module functions called by name (the parser helpers are private, _parse_*, but be generous)
     for _f, c in sc.calls(*[name for name in ("_parse_indexed_arrays", "_parse_index_string")]):
         pass
@@ -174,8 +173,12 @@ def rule_all_outputs(ctx: Ctx) -> None:
     other_over_outputs = [r for r in rej if r not in none_rej and any(norm(i) == "self.outputs" for _t, i in r["iters"])]
     ctx.tri("3-all-outputs", post, (first_only or whole or [{"node": post.node}])[0]["node"], bool(whole), (bool(first_only) and not whole) or (not none_rej and not other_over_outputs),
             "':' is rejected in every output", "':' (None axis) is only rejected in the first output" if first_only else "':' (None axis) in an output is not rejected", key="none-in-outputs")
-    same = [r for r in rej if any(".indices" in c and ("!=" in c) for c in r["conds"][-1:])]
-    loose = [r for r in rej if any(".indices" in c and any(w in c for w in ("set(", "sorted(", "len(", "frozenset(")) for c in r["conds"][-1:])]
+    # order-insensitive: set / sorted / len applied TO an index tuple; a set OF whole index tuples (`len({o.indices for o in outputs}) > 1`)
+    # still compares them with order
+    applied_to_tuple = re.compile(r"\b(set|sorted|frozenset|len)\(\s*[\w.\[\]]*\.indices\s*\)")
+    set_of_tuples = re.compile(r"len\(\s*(\{|set\()\s*[\w.\[\]]*\.indices\s+for\b")
+    same = [r for r in rej if any(".indices" in c and ("!=" in c or set_of_tuples.search(c)) for c in r["conds"][-1:])]
+    loose = [r for r in rej if any(".indices" in c and applied_to_tuple.search(c) for c in r["conds"][-1:])]
     strict = [r for r in same if r not in loose]
     ctx.tri("3-all-outputs", post, (loose or strict or [{"node": post.node}])[0]["node"], bool(strict), bool(loose),
             "index tuples of all outputs are compared with order", "output indices are compared as sets/sorted/lengths: outputs with permuted indices are accepted although shape/output_key use outputs[0] only",
